@@ -4,7 +4,8 @@
    initial state; TLC checks the property on the specification's own outcome and exports the cases for replay on
    the real client and server code.  Larger bounds are model-checked by SearchRecipeMC. *)
 EXTENDS SearchRecipe, TLC, Json, IOUtils, SequencesExt
-CONSTANTS MaxN, NGhosts, MaxPar, MaxTips, MaxDepth
+CONSTANTS MaxN, NGhosts, MaxPar, MaxTips, MinDepth, MaxDepth,
+          MFAll      \* TRUE: every (missing, filled) pair for limited cases; FALSE: the two extreme pairs
 Ghosts == GhostIds(NGhosts)
 Small(S, k) == {x \in SUBSET S : Cardinality(x) <= k}
 RECURSIVE Graphs(_)
@@ -12,13 +13,17 @@ Graphs(n) == IF n = 0 THEN {<<>>}
              ELSE {Append(g, ps) : g \in Graphs(n - 1), ps \in Small((1..(n - 1)) \cup Ghosts, MaxPar)}
 AllGraphs == UNION {Graphs(n) : n \in 1..MaxN}
 Seq2(par) == [i \in DOMAIN par |-> SetToSeq(par[i])]
-FullCases == {[kind |-> "full", par |-> Seq2(g), K |-> SetToSeq(K), missing |-> SetToSeq(m), tips |-> <<>>,
-               depth |-> 0] :
-              g \in AllGraphs, K \in SUBSET (0..MaxN), m \in SUBSET (Ghosts \cup {NULL})}
-LimitedCases == {[kind |-> "limited", par |-> Seq2(g), K |-> SetToSeq(K), missing |-> <<>>, tips |-> SetToSeq(t),
-                  depth |-> d] :
-                 g \in AllGraphs, K \in SUBSET (0..MaxN) \ {{}}, t \in Small((0..MaxN) \cup Ghosts, MaxTips) \ {{}},
-                 d \in 0..MaxDepth}
+\* (missing, filled): disjoint from K; only ghosts the client recorded as missing are filled in later
+MF(K) == {mf \in (SUBSET (Ghosts \cup {NULL})) \X (SUBSET Ghosts) : mf[1] \cap K = {} /\ mf[2] \subseteq mf[1]}
+MFx(K) == IF MFAll THEN MF(K)
+          ELSE {<<{}, {}>>, <<(Ghosts \cup {NULL}) \ K, Ghosts \ K>>}     \* nothing / everything missing and filled
+FullCases == {[kind |-> "full", par |-> Seq2(g), K |-> SetToSeq(K), missing |-> SetToSeq(mf[1]), tips |-> <<>>,
+               depth |-> 0, filled |-> SetToSeq(mf[2])] :
+              g \in AllGraphs, K \in SUBSET (0..MaxN), mf \in MF({})}
+LimitedCases == UNION {{[kind |-> "limited", par |-> Seq2(g), K |-> SetToSeq(K), missing |-> SetToSeq(mf[1]),
+                         tips |-> SetToSeq(t), depth |-> d, filled |-> SetToSeq(mf[2])] :
+                        g \in AllGraphs, t \in Small((0..MaxN) \cup Ghosts, MaxTips) \ {{}}, d \in MinDepth..MaxDepth,
+                        mf \in MFx(K)} : K \in SUBSET (0..MaxN) \ {{}}}
 \* keys must exist in the graph; a key cannot be both answered and recorded as missing
 Ok(x) == /\ SetOf(x.K) \subseteq 0..Len(x.par)
          /\ SetOf(x.tips) \subseteq (0..Len(x.par)) \cup Ghosts
@@ -32,9 +37,9 @@ LawsHoldOnSpec == SpecHolds(c)
 Reached(W(_)) == \E x \in Cases : W(x)
 Card(q) == Cardinality(SetOf(q))
 WitnessesReached ==
-    /\ Reached(LAMBDA x : x.kind = "full" /\ 0 \in SetOf(x.missing)
+    /\ Reached(LAMBDA x : x.kind = "full" /\ 0 \in SetOf(x.missing) /\ x.filled = <<>>
                           /\ LET s == SpecOut(x) IN s.count = Card(x.K) + 1 /\ NULL \in s.walk)
-    /\ Reached(LAMBDA x : x.kind = "full" /\ Card(x.K) >= 2
+    /\ Reached(LAMBDA x : x.kind = "full" /\ Card(x.K) >= 2 /\ x.filled = <<>>
                           /\ (\E k \in SetOf(x.K) : Parents(ParOf(x), k) \cap SetOf(x.missing) \cap Ghosts # {})
                           /\ SpecOut(x).stop # {})
     /\ Reached(LAMBDA x : x.kind = "full" /\ Card(x.K) >= 2
@@ -43,7 +48,14 @@ WitnessesReached ==
                           /\ LET s == SpecOut(x) IN
                              /\ Cardinality(s.keys) >= 2 /\ s.keys # SetOf(x.K)
                              /\ s.start # PossibleHeads(ParOf(x), SetOf(x.K), SetOf(x.tips), x.depth))
-    /\ Reached(LAMBDA x : x.kind = "limited" /\ LET s == SpecOut(x) IN NULL \in s.walk /\ s.stop # {})
+    \* limited walk reaching a root while null: is recorded missing: null: must stay a stop key
+    /\ Reached(LAMBDA x : x.kind = "limited" /\ 0 \in SetOf(x.missing)
+                          /\ LET s == SpecOut(x) IN NULL \in s.stop /\ Cardinality(s.keys) >= 2)
+    \* limited walk stopping at a ghost that is recorded missing and present on the server by now
+    /\ Reached(LAMBDA x : x.kind = "limited" /\ x.filled # <<>>
+                          /\ LET s == SpecOut(x) IN SetOf(x.filled) \cap s.stop # {} /\ s.keys # {})
+    \* full variant under filling: the walk is wrong and the count check refuses it
+    /\ Reached(LAMBDA x : x.kind = "full" /\ x.filled # <<>> /\ LET s == SpecOut(x) IN ~s.ok /\ s.walk # s.keys)
 Export == JsonSerialize(IOEnv.VF_OUT, SetToSeq({[c |-> x] : x \in Cases}))
 ASSUME IF "VF_OUT" \in DOMAIN IOEnv THEN Export ELSE TRUE
 ASSUME IF "VF_WITNESSES" \in DOMAIN IOEnv THEN WitnessesReached ELSE TRUE
